@@ -128,7 +128,7 @@ theorem pruneOthers_sound {dist : α → α → D} (hm : IsMetric dist) {childre
     (hpr : (pruneOthers child.ranges (dist q child.pivot.val) bound i perm)[j]'(by simpa using hj) = .pruned) :
     ∀ x ∈ cj.elems, bound < dist q x.val := by
   obtain ⟨rg, hrg, hall⟩ := localInv_range hinv hc hcj
-  simp only [pruneOthers, Array.getElem_mapIdx] at hpr
+  simp only [pruneOthers, Array.getElem_mapIdx, pruneEntry] at hpr
   by_cases hji : j = i
   · simp only [hji, if_true] at hpr
     subst hji
@@ -159,7 +159,7 @@ theorem dequeue_skip_sound {dist : α → α → D} (hm : IsMetric dist) {childr
 
 end Sites
 
-/-! ### the leaf scan and the answer queue of the radius query -/
+/-! ### the answer queue -/
 
 section Leaf
 
@@ -193,50 +193,6 @@ theorem nbhPush_sorted [LinearOrder D] (e : D × Elem α) : ∀ (nbh : Nbh α D)
       rcases List.mem_cons.mp this with rfl | hb
       · exact not_lt.mp hnlt
       · exact hs'.1 b hb
-
-/-- **leaf scan of `Node::nearestR`**: it adds to the answer exactly the non-removed `data_` elements
-within the radius — each once, never a removed one. -/
-theorem scanDataR_perm [LinearOrder D] (dist : α → α → D) (removed : List Nat) (q : α) (r : D) :
-    ∀ (data : List (Elem α)) (nbh : Nbh α D),
-      (scanDataR dist removed q r data nbh).Perm
-        ((((liveOf removed data).filter (fun e => decide (dist q e.val ≤ r))).map
-            (fun e => (dist q e.val, e))) ++ nbh)
-  | [], nbh => by simp [scanDataR, liveOf]
-  | e :: es, nbh => by
-    unfold scanDataR
-    by_cases hrm : isRemoved removed e = true
-    · simp only [hrm, if_true]
-      have := scanDataR_perm dist removed q r es nbh
-      simpa [liveOf, hrm] using this
-    · have hrm' : isRemoved removed e = false := by simpa using hrm
-      simp only [hrm', Bool.false_eq_true, if_false]
-      by_cases hd : dist q e.val ≤ r
-      · have ih := scanDataR_perm dist removed q r es (insertR r nbh e (dist q e.val))
-        have hi : insertR r nbh e (dist q e.val) = nbhPush (dist q e.val, e) nbh := by simp [insertR, hd]
-        rw [hi] at ih ⊢
-        refine ih.trans ?_
-        simp only [liveOf, List.filter_cons, hrm', Bool.not_false, if_true, hd, decide_true, List.map_cons,
-          List.cons_append]
-        exact ((List.Perm.append_left _ (nbhPush_perm _ nbh)).trans List.perm_middle)
-      · have ih := scanDataR_perm dist removed q r es (insertR r nbh e (dist q e.val))
-        have hi : insertR r nbh e (dist q e.val) = nbh := by simp [insertR, hd]
-        rw [hi] at ih ⊢
-        refine ih.trans ?_
-        simp [liveOf, List.filter_cons, hrm', hd]
-
-theorem scanDataR_sorted [LinearOrder D] (dist : α → α → D) (removed : List Nat) (q : α) (r : D) :
-    ∀ (data : List (Elem α)) (nbh : Nbh α D), nbh.Pairwise (fun a b => b.1 ≤ a.1) →
-      (scanDataR dist removed q r data nbh).Pairwise (fun a b => b.1 ≤ a.1)
-  | [], nbh, h => by simpa [scanDataR] using h
-  | e :: es, nbh, h => by
-    unfold scanDataR
-    split
-    · exact scanDataR_sorted dist removed q r es nbh h
-    · apply scanDataR_sorted dist removed q r es
-      unfold insertR
-      split
-      · exact nbhPush_sorted _ nbh h
-      · exact h
 
 end Leaf
 
